@@ -302,6 +302,13 @@ pub fn run(ctx: &Ctx) -> (Acc, Report) {
             }
         }
     }
+    // the secret as an operator may have stored it: with a trailing line break, a leading blank, a tab (requests are still
+    // signed with the clean secret, so these take the mismatch paths)
+    for (shape, stored) in [("trailing-newline", format!("{SK}\n")), ("leading-blank", format!(" {SK}")), ("trailing-tab-and-blank", format!("{SK}\t "))] {
+        for access in [AccessMode::None, AccessMode::Allow] {
+            cfgs.push((format!("auth=true(secret stored with a {shape}) {access:?} host=false None"), SvcCfg { keys: Some(vec![(AK.into(), stored.clone()), (AK2.into(), SK2.into())]), access, ..Default::default() }));
+        }
+    }
     let n_cfgs = cfgs.len();
     par_items(&mut acc, &cases, |a, ci, (label, req, body)| {
         for (cname, cfg) in &cfgs {
